@@ -264,10 +264,12 @@ def _scaling(name, f, fd, rs):
     fd2 = dict(fd)
     if fd["cls"] == "file":
         return []            # a cut at "the same" place of a longer file is another fault: not comparable
-    if fd["cls"] == "payload" and fd["kind"] in ("truncate", "corrupt"):
+    if fd["cls"] == "payload":
         a, b = p1.get(fd["site"], 0), p2.get(fd["site"], 0)
-        if not (a and b and a - fd["pos"] <= 16):
-            return []        # only damage anchored at the end of the payload means the same in both sizes
+        if not (fd["kind"] == "truncate" and fd["site"].startswith("objstm:") and a and b and a - fd["pos"] <= 16):
+            # only the object stream cut by a few bytes at its end means the same in both sizes (most members survive);
+            # a flipped byte or a cut elsewhere in compressed data destroys a different share of it
+            return []
         fd2["pos"] = b - (a - fd["pos"])
     if fd["cls"] == "xrefent":
         k, n = fd["site"].split("/")
